@@ -2,6 +2,8 @@ import CryoCat.Lemmas.C13
 import CryoCat.Lemmas.C13_Shapes
 import CryoCat.Lemmas.C13_Algebra
 import CryoCat.Lemmas.C13_Conv
+import CryoCat.Lemmas.C13_Blur
+import CryoCat.Lemmas.C13_Parse
 /-! C13 — property theorems (only theorems, the small definitions their statements need, and
 non-vacuity examples; helper lemmas live in `Lemmas/C13*.lean`).
 
@@ -18,84 +20,136 @@ theorem blur_factor_documented : blurFactor = 5 := blurFactor_eq (by decide) (by
 
 theorem mask_expansion_default : Gen.C13.maskExpansionDefault = 4 := by decide
 
+/-- `preprocess_params`, complete body (locals numbered `v0, v1, …` in order of first binding): `np.ceil(radius + gaussian * 5.0)` only for a non-zero blur applied outwards -/
 theorem preprocess_documented :
-    Gen.C13.preprocessCond = ["if:gaussian!=0.0andgaussian_outwards"] ∧
-    Gen.C13.preprocessRadius = ["new_radius=np.ceil(radius+gaussian*blur_factor).astype(int)", "new_radius=radius"] :=
-  ⟨rfl, rfl⟩
+    Gen.C13.body_preprocess_params = ["v0=5.0", "if:gaussian!=0.0andgaussian_outwards", "v1=np.ceil(radius+gaussian*v0).astype(int)", "else:", "v1=radius", "end",
+      "returnv1"] :=
+  rfl
 
-/-- sphere: Euclidean distance, cut with `>` (so `distance <= r` stays), centre voxel forced -/
+/-- sphere, complete body: Euclidean distance, cut with `>` (so `distance <= r` stays), centre voxel forced, then `postprocess` -/
 theorem sphere_source_documented :
-    Gen.C13.sphereDist = ["mask=np.sqrt((x-center[0])**2+(y-center[1])**2+(z-center[2])**2)"] ∧
-    Gen.C13.sphereCuts = ["mask[mask>radius]=0", "mask[mask>0]=1", "mask[center[0],center[1],center[2]]=1"] ∧
-    Gen.C13.sphereParams = ["radius=np.amin(mask_size)//2", "radius=preprocess_params(radius,gaussian,gaussian_outwards)"] :=
-  ⟨rfl, rfl, rfl⟩
+    Gen.C13.body_spherical_mask = ["mask_size=get_correct_format(mask_size)", "center=get_correct_format(center,reference_size=mask_size)", "if:radiusisNone",
+      "radius=np.amin(mask_size)//2", "end", "radius=preprocess_params(radius,gaussian,gaussian_outwards)",
+      "v0,v1,v2=np.mgrid[0:mask_size[0]:1,0:mask_size[1]:1,0:mask_size[2]:1]",
+      "v3=np.sqrt((v0-center[0])**2+(v1-center[1])**2+(v2-center[2])**2)", "v3[v3>radius]=0", "v3[v3>0]=1",
+      "v3[center[0],center[1],center[2]]=1", "v3=postprocess(v3,gaussian,np.asarray([0,0,0]),output_name)", "returnv3"] :=
+  rfl
 
-/-- cylinder: `height // 2`, planar disc cut with `>`, slab clipped to the box -/
+/-- cylinder, complete body: `height // 2`, planar disc cut with `>`, slab clipped to the box -/
 theorem cylinder_source_documented :
-    Gen.C13.cylParams = ["radius=np.amin(mask_size[:2])//2", "height=mask_size[2]", "height=height//2",
-      "radius=preprocess_params(radius,gaussian,gaussian_outwards)", "height=preprocess_params(height,gaussian,gaussian_outwards)"] ∧
-    Gen.C13.cylDisc = ["mask_xy=np.sqrt((x-center[0])**2+(y-center[1])**2)", "mask_xy[mask_xy>radius]=0", "mask_xy[mask_xy>0]=1",
-      "mask_xy[center[0],center[1]]=1"] ∧
-    Gen.C13.cylSlab = ["z_start=max(center[2]-height,0)", "z_end=min(center[2]+height+1,mask_size[2])", "if:z_end>z_start",
-      "mask[:,:,z_start:z_end]=np.tile(mask_xy[:,:,None],(1,1,z_end-z_start))"] :=
-  ⟨rfl, rfl, rfl⟩
+    Gen.C13.body_cylindrical_mask = ["mask_size=get_correct_format(mask_size)", "center=get_correct_format(center,reference_size=mask_size)", "if:radiusisNone",
+      "radius=np.amin(mask_size[:2])//2", "end", "if:heightisNone", "height=mask_size[2]", "end", "height=height//2",
+      "radius=preprocess_params(radius,gaussian,gaussian_outwards)", "height=preprocess_params(height,gaussian,gaussian_outwards)",
+      "v0,v1=np.mgrid[0:mask_size[0]:1,0:mask_size[1]:1]", "v2=np.sqrt((v0-center[0])**2+(v1-center[1])**2)", "v2[v2>radius]=0",
+      "v2[v2>0]=1", "v2[center[0],center[1]]=1", "v3=np.zeros(mask_size)", "v4=max(center[2]-height,0)",
+      "v5=min(center[2]+height+1,mask_size[2])", "if:v5>v4", "v3[:,:,v4:v5]=np.tile(v2[:,:,None],(1,1,v5-v4))", "end",
+      "v3=postprocess(v3,gaussian,angles,output_name)", "returnv3"] :=
+  rfl
 
-/-- ellipsoid: the grid, the reversal of the point list, `distance <= 1` -/
+/-- ellipsoid, complete body: the grid, the reversal of the point list, `distance <= 1` -/
 theorem ellipsoid_source_documented :
-    Gen.C13.ellGrid = ["xi=tuple((np.linspace(1,s,s)-np.floor(0.5*s)forsinmask_shape))", "xi=np.meshgrid(*xi,indexing='ij')",
-      "points=np.array(xi).reshape(3,-1)[::-1]", "grid_center=0.5*mask_shape-center",
-      "grid_center=np.tile(grid_center.reshape(3,1),(1,points.shape[1]))", "points=points[:,::-1]", "grid_center=grid_center[::-1]"] ∧
-    Gen.C13.ellRadii = ["radii=get_correct_format(radii,reference_size=mask_shape)", "radii=preprocess_params(radii,gaussian,gaussian_outwards)",
-      "radii=radii[::-1]", "radii=np.tile(radii.reshape(3,1),(1,points.shape[1]))"] ∧
-    Gen.C13.ellTest = ["ellipsoid=(points-grid_center)**2", "ellipsoid=ellipsoid/radii**2",
-      "distance=np.sum(ellipsoid,axis=0).reshape(mask_shape)", "mask=distance<=1"] :=
-  ⟨rfl, rfl, rfl⟩
+    Gen.C13.body_ellipsoid_mask = ["v0=get_correct_format(mask_size)", "center=get_correct_format(center,reference_size=v0)",
+      "radii=get_correct_format(radii,reference_size=v0)", "radii=preprocess_params(radii,gaussian,gaussian_outwards)",
+      "v1=tuple((np.linspace(1,v2,v2)-np.floor(0.5*v2)forv2inv0))", "v1=np.meshgrid(*v1,indexing='ij')",
+      "v3=np.array(v1).reshape(3,-1)[::-1]", "v4=0.5*v0-center", "v4=np.tile(v4.reshape(3,1),(1,v3.shape[1]))", "v3=v3[:,::-1]",
+      "v4=v4[::-1]", "radii=radii[::-1]", "radii=np.tile(radii.reshape(3,1),(1,v3.shape[1]))", "v5=(v3-v4)**2", "v5=v5/radii**2",
+      "v6=np.sum(v5,axis=0).reshape(v0)", "v7=v6<=1", "v7=postprocess(v7,gaussian,angles,output_name)", "returnv7"] :=
+  rfl
 
-/-- shells: half the thickness added / subtracted, outer minus inner (`sp1 - sp2`, `e1 & ~e2`) -/
+/-- shells, complete bodies: half the thickness added / subtracted, outer minus inner (`v0 - v1`, `v0 & ~v1`) -/
 theorem shell_source_documented :
-    Gen.C13.sShell = ["radius=np.amin(mask_size)//2", "shell_thickness=shell_thickness/2",
-      "sp1=spherical_mask(mask_size,radius=radius+shell_thickness,center=center)",
-      "sp2=spherical_mask(mask_size,radius=radius-shell_thickness,center=center)", "shell_mask=sp1-sp2"] ∧
-    Gen.C13.eShell = ["radii=get_correct_format(radii,reference_size=mask_size)", "shell_thickness=shell_thickness/2",
-      "e1=ellipsoid_mask(mask_size,radii=radii+shell_thickness,center=center)",
-      "e2=ellipsoid_mask(mask_size,radii=radii-shell_thickness,center=center)", "shell_mask=e1&~e2"] :=
+    Gen.C13.body_spherical_shell_mask = ["mask_size=get_correct_format(mask_size)", "center=get_correct_format(center,reference_size=mask_size)", "if:radiusisNone",
+      "radius=np.amin(mask_size)//2", "end", "shell_thickness=shell_thickness/2",
+      "v0=spherical_mask(mask_size,radius=radius+shell_thickness,center=center)",
+      "v1=spherical_mask(mask_size,radius=radius-shell_thickness,center=center)", "v2=v0-v1",
+      "v2=postprocess(v2,gaussian,np.asarray([0,0,0]),output_name)", "returnv2"] ∧
+    Gen.C13.body_ellipsoid_shell_mask = ["mask_size=get_correct_format(mask_size)", "center=get_correct_format(center,reference_size=mask_size)",
+      "radii=get_correct_format(radii,reference_size=mask_size)", "shell_thickness=shell_thickness/2",
+      "v0=ellipsoid_mask(mask_size,radii=radii+shell_thickness,center=center)",
+      "v1=ellipsoid_mask(mask_size,radii=radii-shell_thickness,center=center)", "v2=v0&~v1",
+      "v2=postprocess(v2,gaussian,angles,output_name)", "returnv2"] :=
   ⟨rfl, rfl⟩
 
-/-- `get_correct_format`: integer truncation, default = half the box -/
+/-- `get_correct_format`, complete body: integer truncation, default = half the reference size -/
 theorem format_source_documented :
-    Gen.C13.formatInt = ["returnnp.asarray(unformatted_value).astype(int)", "returnnp.full((3,),unformatted_value).astype(int)",
-      "returnnp.full((3,),unformatted_value).astype(int)"] ∧
-    Gen.C13.formatDefault = ["size_correct_format=box_size//2"] :=
-  ⟨rfl, rfl⟩
+    Gen.C13.body_get_correct_format = ["def:v0(v1)", "if:isinstance(v1,(tuple,list,np.ndarray))", "if:len(v1)==3", "returnnp.asarray(v1).astype(int)", "else:",
+      "if:len(v1)==1", "returnnp.full((3,),v1).astype(int)", "else:",
+      "raiseValueError('Thesizehavetobeasinglenumberorhavetohavelengthof3!')", "end", "end", "else:", "if:isinstance(v1,(float,int))",
+      "returnnp.full((3,),v1).astype(int)", "end", "end", "end", "if:input_valueisnotNone", "v2=v0(input_value)", "else:",
+      "if:reference_sizeisnotNone", "v3=v0(reference_size)", "v2=v3//2", "else:",
+      "raiseValueError('Eitherinput_sizeorreferene_sizehavetobespecified')", "end", "end", "returnv2"] :=
+  rfl
 
-/-- the four set operations: accumulator, operator, clip bounds; `cryomap.read` copies array inputs -/
+/-- the four set operations, complete bodies: accumulator (`subtraction`: a float copy of the first mask, fix 35e97b8), operator, clip bounds; `cryomap.read` copies array inputs -/
 theorem algebra_source_documented :
-    Gen.C13.unionOps = ["final_mask=np.zeros(cryomap.read(mask_list[0]).shape)", "for:mask_list", "mask=cryomap.read(m)",
-      "final_mask+=mask", "final_mask=np.clip(final_mask,0.0,1.0)", "returnfinal_mask"] ∧
-    Gen.C13.interOps = ["final_mask=np.ones(cryomap.read(mask_list[0]).shape)", "for:mask_list", "mask=cryomap.read(m)",
-      "final_mask*=mask", "final_mask=np.clip(final_mask,0.0,1.0)", "returnfinal_mask"] ∧
-    Gen.C13.subOps = ["final_mask=cryomap.read(mask_list[0])", "for:mask_list[1:]", "mask=cryomap.read(m)", "final_mask-=mask",
-      "final_mask=np.clip(final_mask,0.0,1.0)", "returnfinal_mask"] ∧
-    Gen.C13.diffOps = ["union_mask=union(mask_list)", "inter_mask=intersection(mask_list)", "final_mask=union_mask-inter_mask",
-      "final_mask=np.clip(final_mask,0.0,1.0)", "returnfinal_mask"] ∧
-    Gen.C13.readCopies = ["data=np.array(data,copy=True)"] :=
+    Gen.C13.body_union = ["v0=np.zeros(cryomap.read(mask_list[0]).shape)", "for:v1:mask_list", "v2=cryomap.read(v1)", "v0+=v2", "end",
+      "v0=np.clip(v0,0.0,1.0)", "write_out(v0,output_name)", "returnv0"] ∧
+    Gen.C13.body_intersection = ["v0=np.ones(cryomap.read(mask_list[0]).shape)", "for:v1:mask_list", "v2=cryomap.read(v1)", "v0*=v2", "end",
+      "v0=np.clip(v0,0.0,1.0)", "write_out(v0,output_name)", "returnv0"] ∧
+    Gen.C13.body_subtraction = ["v0=cryomap.read(mask_list[0]).astype(float)", "for:v1:mask_list[1:]", "v2=cryomap.read(v1)", "v0-=v2", "end",
+      "v0=np.clip(v0,0.0,1.0)", "write_out(v0,output_name)", "returnv0"] ∧
+    Gen.C13.body_difference = ["v0=union(mask_list)", "v1=intersection(mask_list)", "v2=v0-v1", "v2=np.clip(v2,0.0,1.0)", "write_out(v2,output_name)", "returnv2"] ∧
+    Gen.C13.body_cryomap_read = ["if:isinstance(input_map,str)", "def:v0(v1)", "v2='\\\\.(mrc|ali|rec|st)(\\\\.\\\\d+)?$'", "returnbool(re.search(v2,v1))", "end",
+      "if:v0(input_map)", "v3=mrcfile.open(input_map).data", "else:", "if:input_map.endswith('.em')", "v3=emfile.read(input_map)[1]",
+      "else:", "raiseValueError('Theinputmapfilename',input_map,'isneitheremormrcfile!')", "end", "end", "if:transpose",
+      "v3=v3.transpose(2,1,0)", "end", "else:", "if:isinstance(input_map,np.ndarray)", "v3=np.array(input_map)", "else:",
+      "raiseValueError(f'Inputmapmustbepathtovalidfileornparray')", "end", "end", "v3=np.array(v3,copy=True)", "if:data_typeisnotNone",
+      "v3=v3.astype(data_type)", "end", "returnv3"] :=
   ⟨rfl, rfl, rfl, rfl, rfl⟩
 
+/-- `add_gaussian` / `rotate` / `postprocess`, complete bodies: `sigma == 0` returns the mask itself, otherwise `skimage.filters.gaussian(mask, sigma=sigma)` with the library defaults (mode nearest, truncate 4); no rotation for zero angles -/
 theorem gaussian_source_documented :
-    Gen.C13.gaussOps = ["if:sigma==0", "returninput_mask", "returnfilters.gaussian(input_mask,sigma=sigma)"] := rfl
-
-/-- `generate_mask`: box-size arithmetic and the constructor called per shape name -/
-theorem generator_source_documented :
-    Gen.C13.genSize = ["if:mask_sizeisNone", "mask_size=2*np.max(specs)+mask_expansion", "mask_size=math.ceil(mask_size/2)*2",
-      "mask_size=math.ceil((mask_size+specs[1])/2)*2"] ∧
-    Gen.C13.genCalls = ["if:shape=='sphere'", "mask=spherical_mask(mask_size=mask_size,radius=specs[0])", "if:shape=='cylinder'",
-      "mask=cylindrical_mask(mask_size=mask_size,radius=specs[0],height=specs[1])", "if:shape=='s_shell'",
-      "mask=spherical_shell_mask(mask_size=mask_size,shell_thickness=specs[1],radius=specs[0])", "if:shape=='ellipsoid'",
-      "mask=ellipsoid_mask(mask_size=mask_size,radii=specs)", "if:shape=='e_shell'",
-      "mask=ellipsoid_shell_mask(mask_size=mask_size,shell_thickness=specs[3],radii=specs[0:3])"] ∧
-    Gen.C13.parsePatterns = ["sphere", "^sphere_r(\\d+)$", "cylinder", "^cylinder_r(\\d+)_h(\\d+)$", "s_shell", "^s_shell_r(\\d+)_s(\\d+)$",
-      "ellipsoid", "^ellipsoid_rx(\\d+)_ry(\\d+)_rz(\\d+)$", "e_shell", "^e_shell_rx(\\d+)_ry(\\d+)_rz(\\d+)_s(\\d+)$"] :=
+    Gen.C13.body_add_gaussian = ["if:sigma==0", "returninput_mask", "else:", "returnfilters.gaussian(input_mask,sigma=sigma)", "end"] ∧
+    Gen.C13.body_rotate = ["if:anglesisNoneornotnp.any(angles)", "returninput_mask", "else:", "returncryomap.rotate(input_mask,rotation_angles=angles)",
+      "end"] ∧
+    Gen.C13.body_postprocess = ["v0=add_gaussian(input_mask,gaussian)", "v0=rotate(v0,angles)", "write_out(v0,output_name)", "returnv0"] :=
   ⟨rfl, rfl, rfl⟩
+
+/-- `generate_mask` / `parse_shape_string`, complete bodies: box-size arithmetic, the constructor called per shape name, the patterns -/
+theorem generator_source_documented :
+    Gen.C13.body_generate_mask = ["v0,v1=parse_shape_string(mask_shape)", "if:mask_sizeisNone", "mask_size=2*np.max(v1)+mask_expansion",
+      "mask_size=math.ceil(mask_size/2)*2", "end", "if:v0=='sphere'", "v2=spherical_mask(mask_size=mask_size,radius=v1[0])", "else:",
+      "if:v0=='cylinder'", "v2=cylindrical_mask(mask_size=mask_size,radius=v1[0],height=v1[1])", "else:", "if:v0=='s_shell'",
+      "mask_size=math.ceil((mask_size+v1[1])/2)*2", "v2=spherical_shell_mask(mask_size=mask_size,shell_thickness=v1[1],radius=v1[0])",
+      "else:", "if:v0=='ellipsoid'", "v2=ellipsoid_mask(mask_size=mask_size,radii=v1)", "else:", "if:v0=='e_shell'",
+      "v2=ellipsoid_shell_mask(mask_size=mask_size,shell_thickness=v1[3],radii=v1[0:3])", "end", "end", "end", "end", "end", "returnv2"] ∧
+    Gen.C13.body_parse_shape_string = ["v0={'sphere':'^sphere_r(\\\\d+)$','cylinder':'^cylinder_r(\\\\d+)_h(\\\\d+)$','s_shell':'^s_shell_r(\\\\d+)_s(\\\\d+)$','ellipsoid':'^ellipsoid_rx(\\\\d+)_ry(\\\\d+)_rz(\\\\d+)$','e_shell':'^e_shell_rx(\\\\d+)_ry(\\\\d+)_rz(\\\\d+)_s(\\\\d+)$'}",
+      "for:(v1,v2):v0.items()", "v3=re.match(v2,shape_string)", "if:v3", "v4=[int(v5)forv5inv3.groups()]", "return(v1,v4)", "end", "end",
+      "raiseValueError(f\"String'{shape_string}'doesnotmatchanyknownshapepattern.\")"] ∧
+    Gen.C13.parsePatterns = ["sphere", "^sphere_r(\\d+)$", "cylinder", "^cylinder_r(\\d+)_h(\\d+)$", "s_shell", "^s_shell_r(\\d+)_s(\\d+)$", "ellipsoid",
+      "^ellipsoid_rx(\\d+)_ry(\\d+)_rz(\\d+)$", "e_shell", "^e_shell_rx(\\d+)_ry(\\d+)_rz(\\d+)_s(\\d+)$"] :=
+  ⟨rfl, rfl, rfl⟩
+
+/-- signatures: parameter names, order and DEFAULT values the statement depends on (`gaussian=0`, `gaussian_outwards=True`, `radius/height/radii/center=None`, `mask_size=None`, `mask_expansion=4`, `output_name=None`) -/
+theorem defaults_documented :
+    Gen.C13.sig_spherical_mask = ["mask_size", "radius=None", "center=None", "gaussian=0.0", "gaussian_outwards=True", "output_name=None"] ∧
+    Gen.C13.sig_cylindrical_mask = ["mask_size", "radius=None", "height=None", "center=None", "gaussian=0", "gaussian_outwards=True", "angles=None",
+      "output_name=None"] ∧
+    Gen.C13.sig_ellipsoid_mask = ["mask_size", "radii=None", "center=None", "gaussian=0", "output_name=None", "angles=None", "gaussian_outwards=True"] ∧
+    Gen.C13.sig_spherical_shell_mask = ["mask_size", "shell_thickness", "radius=None", "center=None", "gaussian=0.0", "output_name=None"] ∧
+    Gen.C13.sig_ellipsoid_shell_mask = ["mask_size", "shell_thickness", "radii", "center=None", "gaussian=0.0", "angles=None", "output_name=None"] ∧
+    Gen.C13.sig_generate_mask = ["mask_shape", "mask_size=None", "mask_expansion=4"] ∧
+    Gen.C13.sig_parse_shape_string = ["shape_string"] ∧
+    Gen.C13.sig_union = ["mask_list", "output_name=None"] ∧
+    Gen.C13.sig_intersection = ["mask_list", "output_name=None"] ∧
+    Gen.C13.sig_subtraction = ["mask_list", "output_name=None"] ∧
+    Gen.C13.sig_difference = ["mask_list", "output_name=None"] ∧
+    Gen.C13.sig_preprocess_params = ["radius", "gaussian", "gaussian_outwards"] ∧
+    Gen.C13.sig_get_correct_format = ["input_value", "reference_size=None"] ∧
+    Gen.C13.sig_add_gaussian = ["input_mask", "sigma"] ∧
+    Gen.C13.sig_rotate = ["input_mask", "angles"] ∧
+    Gen.C13.sig_postprocess = ["input_mask", "gaussian", "angles", "output_name"] ∧
+    Gen.C13.sig_cryomap_read = ["input_map", "transpose=True", "data_type=None"] :=
+  ⟨rfl, rfl, rfl, rfl, rfl, rfl, rfl, rfl, rfl, rfl, rfl, rfl, rfl, rfl, rfl, rfl, rfl⟩
+
+/-- the literal pieces of the five patterns `^label(\\d+)label(\\d+)…$`, in the order the source tries them -/
+theorem labels_documented :
+    Gen.C13.shapeLabels =
+     [("sphere", [['s', 'p', 'h', 'e', 'r', 'e', '_', 'r']]),
+      ("cylinder", [['c', 'y', 'l', 'i', 'n', 'd', 'e', 'r', '_', 'r'], ['_', 'h']]),
+      ("s_shell", [['s', '_', 's', 'h', 'e', 'l', 'l', '_', 'r'], ['_', 's']]),
+      ("ellipsoid", [['e', 'l', 'l', 'i', 'p', 's', 'o', 'i', 'd', '_', 'r', 'x'], ['_', 'r', 'y'], ['_', 'r', 'z']]),
+      ("e_shell", [['e', '_', 's', 'h', 'e', 'l', 'l', '_', 'r', 'x'], ['_', 'r', 'y'], ['_', 'r', 'z'], ['_', 's']])] := by decide
 
 /-! ### the array layout -/
 
@@ -125,13 +179,13 @@ theorem sphere_exact (q : Req) (hk : q.kind = .sphere) (hc : CentreInBox q) (hr 
   obtain ⟨h1, h2, h3, h4, h5, h6⟩ := hc
   rcases hcc : q.centre with ⟨cx, cy, cz⟩
   rw [hcc] at h1 h2 h3 h4 h5 h6
-  have hv : voxel q = some fun i j k => b2i (sphereIn cx cy cz q.sphereRadius i j k) := by
-    simp only [voxel, hcc, hk, inBox]; simp_all
+  have hv : voxel q = some fun i j k => b2i (sphereVox q.nx q.ny q.nz cx cy cz q.sphereRadius i j k) := by
+    simp only [voxel, hcc, hk, idxOk_of_inBox _ _ h1 h2, idxOk_of_inBox _ _ h3 h4, idxOk_of_inBox _ _ h5 h6, Bool.and_self, if_true]
   rw [hv]
   congr 1
   funext i j k
   apply b2i_eq_ite
-  rw [sphereIn_iff _ _ _ _ hr, sq_sum_eq_dist2, pow_two q.sphereRadius]
+  rw [sphereVox_inBox _ _ _ _ _ _ _ h1 h3 h5, sphereIn_iff _ _ _ _ hr, sq_sum_eq_dist2, pow_two q.sphereRadius]
 
 /-- the returned array, voxel by voxel: for every `(i,j,k)` of the box the entry at flat index
 `(i·ny + j)·nz + k` is 1 if `distance² ≤ R²` and 0 otherwise (`sphere_exact` + `mask_layout`) -/
@@ -180,10 +234,11 @@ theorem cylinder_exact (q : Req) (hk : q.kind = .cylinder)
   obtain ⟨h1, h2, h3, h4⟩ := hc
   rcases hcc : q.centre with ⟨cx, cy, cz⟩
   rw [hcc] at h1 h2 h3 h4
-  refine ⟨fun i j k => b2i (cylIn q.nz cx cy cz q.cylRadius q.cylHalf i j k), ?_, ?_⟩
-  · simp only [voxel, hcc, hk, inBox]; simp_all
+  refine ⟨fun i j k => b2i (cylVox q.nx q.ny q.nz cx cy cz q.cylRadius q.cylHalf i j k), ?_, ?_⟩
+  · simp only [voxel, hcc, hk, idxOk_of_inBox _ _ h1 h2, idxOk_of_inBox _ _ h3 h4, Bool.and_self, if_true]
   · intro i j k hkz
     apply b2i_eq_ite
+    rw [cylVox_inBox _ _ _ _ _ _ _ _ h1 h3]
     unfold cylIn
     rw [Bool.and_eq_true, Bool.and_eq_true, decide_eq_true_iff, decide_eq_true_iff, discIn_iff _ _ _ hr,
       and_assoc, slab_iff q.nz cz q.cylHalf k (by omega) (by exact_mod_cast hkz), sq_sum_eq_dist2xy cx cy cz, pow_two q.cylRadius]
@@ -256,7 +311,8 @@ theorem sphere_shell_exact (q : Req) (hk : q.kind = .sshell) (hc : CentreInBox q
   rw [hcc] at h1 h2 h3 h4 h5 h6
   have hv : voxel q = some fun i j k =>
       b2i (sphereIn cx cy cz (r + q.thick / 2) i j k) - b2i (sphereIn cx cy cz (r - q.thick / 2) i j k) := by
-    simp only [voxel, hcc, hk, inBox, hr]; simp_all
+    simp only [voxel, hcc, hk, hr, idxOk_of_inBox _ _ h1 h2, idxOk_of_inBox _ _ h3 h4, idxOk_of_inBox _ _ h5 h6, Bool.and_self, if_true,
+      Option.getD_some, sphereVox_inBox _ _ _ _ _ _ _ h1 h3 h5]
   rw [hv]
   congr 1
   funext i j k
@@ -332,6 +388,171 @@ theorem generate_sphere_exact (r : Nat) (ms : Option Nat) (e : Nat) (hs : 0 < ge
     omega) (by rw [hrad q rfl rfl]; exact_mod_cast Nat.zero_le r)
   rw [hrad q rfl rfl] at h
   exact h
+
+
+/-- the generated cylinder is centred and is exactly the analytic cylinder of the named radius and height:
+planar `distance² ≤ r²` and `|k − cz| ≤ ⌊h/2⌋` -/
+theorem generate_cylinder_exact (r h : Nat) (ms : Option Nat) (e : Nat) (hs : 0 < genSize [r, h] ms e) :
+    ∃ q f, generate .cylinder [r, h] ms e = some q ∧ voxel q = some f ∧ ∀ i j k : Nat, k < q.nz →
+      f i j k = if (dist2xy q.centre i j : Rat) ≤ (r : Rat) ^ 2 ∧ |(k : Int) - q.centre.2.2| ≤ (h : Int) / 2 then 1 else 0 := by
+  set q : Req := { kind := .cylinder, nx := genSize [r, h] ms e, ny := genSize [r, h] ms e, nz := genSize [r, h] ms e,
+                   radius := some (r : Rat), height := some (h : Int) } with hq
+  have hrad : q.cylRadius = (r : Rat) := cylinder_radius_hard q r rfl (Or.inl rfl)
+  have hhalf : q.cylHalf = (h : Int) / 2 := (cylinder_half_height_hard q h rfl (Or.inl rfl)).1
+  obtain ⟨f, hf, hv⟩ := cylinder_exact q rfl (by
+    simp only [Req.centre, hq, Option.getD_none]
+    omega) (by rw [hrad]; exact_mod_cast Nat.zero_le r)
+  refine ⟨q, f, generate_cylinder r h ms e, hf, ?_⟩
+  intro i j k hk
+  rw [hv i j k hk, hrad, hhalf]
+
+/-- the generated ellipsoid (even box: always so when no size is given) is `Σ((i−c)/r)² ≤ 1` with the named radii -/
+theorem generate_ellipsoid_exact (a b c : Nat) (ms : Option Nat) (e : Nat) (ha : a ≠ 0) (hb : b ≠ 0) (hc : c ≠ 0)
+    (heven : genSize [a, b, c] ms e % 2 = 0) :
+    ∃ q, generate .ellipsoid [a, b, c] ms e = some q ∧
+      voxel q = some fun (i j k : Int) =>
+        if (((i : Rat) - q.centre.1) / (a : Int)) ^ 2 + (((j : Rat) - q.centre.2.1) / (b : Int)) ^ 2
+            + (((k : Rat) - q.centre.2.2) / (c : Int)) ^ 2 ≤ 1 then 1 else 0 := by
+  refine ⟨_, generate_ellipsoid a b c ms e, ?_⟩
+  have h := ellipsoid_mask_exact { kind := .ellipsoid, nx := genSize [a, b, c] ms e, ny := genSize [a, b, c] ms e, nz := genSize [a, b, c] ms e, radii := some ((a : Rat), (b : Rat), (c : Rat)) } rfl heven heven heven (a : Rat) (b : Rat) (c : Rat) rfl rfl
+    (by rw [trunc_natCast]; exact_mod_cast ha) (by rw [trunc_natCast]; exact_mod_cast hb) (by rw [trunc_natCast]; exact_mod_cast hc)
+  simp only [trunc_natCast] at h
+  exact h
+
+/-- the generated spherical shell: outer ball `r + t/2` and not inner ball `r − t/2`, centred in the enlarged box -/
+theorem generate_sphere_shell_exact (r t : Nat) (ms : Option Nat) (e : Nat) :
+    ∃ q, generate .sshell [r, t] ms e = some q ∧ (0 < q.nx →
+      voxel q = some fun i j k =>
+        b2i (sphereIn q.centre.1 q.centre.2.1 q.centre.2.2 ((r : Rat) + (t : Rat) / 2) i j k
+              && !sphereIn q.centre.1 q.centre.2.1 q.centre.2.2 ((r : Rat) - (t : Rat) / 2) i j k)) := by
+  refine ⟨_, rfl, ?_⟩
+  intro hpos
+  set q : Req := { kind := .sshell, nx := ((genSize [r, t] ms e + t + 1) / 2) * 2, ny := ((genSize [r, t] ms e + t + 1) / 2) * 2,
+                   nz := ((genSize [r, t] ms e + t + 1) / 2) * 2, radius := some (r : Rat), thick := (t : Rat) } with hq
+  have hpos' : 0 < ((genSize [r, t] ms e + t + 1) / 2) * 2 := hpos
+  exact sphere_shell_exact q rfl (by
+    simp only [CentreInBox, Req.centre, hq, Option.getD_none]
+    omega) (r : Rat) rfl (by show (0 : Rat) ≤ ((t : Nat) : Rat); exact_mod_cast Nat.zero_le t)
+
+/-- the generated ellipsoid shell: outer ellipsoid `int(r + t/2)` and not inner ellipsoid `int(r − t/2)` -/
+theorem generate_ellipsoid_shell_exact (a b c t : Nat) (ms : Option Nat) (e : Nat) :
+    ∃ q, generate .eshell [a, b, c, t] ms e = some q ∧
+      voxel q = some fun i j k =>
+        b2i (ellipsoidIn q.nx q.ny q.nz q.centre.1 q.centre.2.1 q.centre.2.2
+                (trunc (((a : Int) : Rat) + (t : Rat) / 2)) (trunc (((b : Int) : Rat) + (t : Rat) / 2)) (trunc (((c : Int) : Rat) + (t : Rat) / 2)) i j k
+             && !ellipsoidIn q.nx q.ny q.nz q.centre.1 q.centre.2.1 q.centre.2.2
+                (trunc (((a : Int) : Rat) - (t : Rat) / 2)) (trunc (((b : Int) : Rat) - (t : Rat) / 2)) (trunc (((c : Int) : Rat) - (t : Rat) / 2)) i j k) := by
+  refine ⟨_, generate_ellipsoid_shell a b c t ms e, ?_⟩
+  have h := ellipsoid_shell_exact { kind := .eshell, nx := genSize [a, b, c, t] ms e, ny := genSize [a, b, c, t] ms e, nz := genSize [a, b, c, t] ms e, radii := some ((a : Rat), (b : Rat), (c : Rat)), thick := (t : Rat) } rfl (a : Rat) (b : Rat) (c : Rat) rfl
+  simp only [trunc_natCast] at h
+  exact h
+
+/-! ### `parse_shape_string`: the name written for a shape parses back to the shape -/
+
+/-- **parse ∘ format = id**: for every shape kind and every list of dimensions of the right length, the name
+`label₁ str(n₁) label₂ str(n₂) …` built from the labels found in the source is parsed (first matching pattern, in
+the order of the source's table) to exactly that kind and those numbers -/
+theorem parse_format (k : Kind) (ns : List Nat) (hn : ns.length = arity k) :
+    ∃ s, formatShape k ns = some s ∧ parseShape s = some (k, ns) := by
+  have hl : Gen.C13.shapeLabels = docLabels := labels_documented
+  have key : ∀ (ls : List (List Char)), labelsOf docLabels k = some ls → ls.length = ns.length →
+      GoodLabels ls → (∀ l ∈ ls, '\n' ∉ l) → parseWith docLabels (formatFields ls ns) = some (k, ns) →
+      ∃ s, formatShape k ns = some s ∧ parseShape s = some (k, ns) := by
+    intro ls h1 _ _ hnl hp
+    refine ⟨formatFields ls ns, by simp [formatShape, hl, h1], ?_⟩
+    unfold parseShape
+    rw [hl]
+    have hlast : ¬ (formatFields ls ns).getLast? = some '\n' := by
+      intro hc
+      have hm : '\n' ∈ formatFields ls ns := List.mem_of_getLast? hc
+      rcases mem_formatFields ls ns '\n' hm with ⟨l, hl', hin⟩ | hd
+      · exact hnl l hl' hin
+      · exact absurd hd (by decide)
+    rw [if_neg hlast]
+    exact hp
+  cases k
+  · -- sphere
+    obtain ⟨r, rfl⟩ : ∃ r, ns = [r] := by
+      match ns, hn with
+      | [r], _ => exact ⟨r, rfl⟩
+    apply key [['s', 'p', 'h', 'e', 'r', 'e', '_', 'r']] (by decide) rfl (goodLabels_of _ (by decide)) (by decide)
+    have := parseFields_formatFields [['s', 'p', 'h', 'e', 'r', 'e', '_', 'r']] [r] (goodLabels_of _ (by decide)) rfl
+    exact parseWith_cons_some _ _ _ _ _ _ (by simp [kindOfName]) this
+  · -- cylinder
+    obtain ⟨r, h, rfl⟩ : ∃ r h, ns = [r, h] := by
+      match ns, hn with
+      | [r, h], _ => exact ⟨r, h, rfl⟩
+    apply key [['c', 'y', 'l', 'i', 'n', 'd', 'e', 'r', '_', 'r'], ['_', 'h']] (by decide) rfl (goodLabels_of _ (by decide)) (by decide)
+    have := parseFields_formatFields [['c', 'y', 'l', 'i', 'n', 'd', 'e', 'r', '_', 'r'], ['_', 'h']] [r, h] (goodLabels_of _ (by decide)) rfl
+    unfold docLabels
+    rw [parseWith_cons_none _ _ _ (parseFields_none_of_prefix _ _ _ (by simp [stripPrefix, formatFields]))]
+    exact parseWith_cons_some _ _ _ _ _ _ (by simp [kindOfName]) this
+  · -- ellipsoid
+    obtain ⟨a, b, c, rfl⟩ : ∃ a b c, ns = [a, b, c] := by
+      match ns, hn with
+      | [a, b, c], _ => exact ⟨a, b, c, rfl⟩
+    apply key [['e', 'l', 'l', 'i', 'p', 's', 'o', 'i', 'd', '_', 'r', 'x'], ['_', 'r', 'y'], ['_', 'r', 'z']] (by decide) rfl
+      (goodLabels_of _ (by decide)) (by decide)
+    have := parseFields_formatFields [['e', 'l', 'l', 'i', 'p', 's', 'o', 'i', 'd', '_', 'r', 'x'], ['_', 'r', 'y'], ['_', 'r', 'z']] [a, b, c]
+      (goodLabels_of _ (by decide)) rfl
+    unfold docLabels
+    rw [parseWith_cons_none _ _ _ (parseFields_none_of_prefix _ _ _ (by simp [stripPrefix, formatFields]))]
+    rw [parseWith_cons_none _ _ _ (parseFields_none_of_prefix _ _ _ (by simp [stripPrefix, formatFields]))]
+    rw [parseWith_cons_none _ _ _ (parseFields_none_of_prefix _ _ _ (by simp [stripPrefix, formatFields]))]
+    exact parseWith_cons_some _ _ _ _ _ _ (by simp [kindOfName]) this
+  · -- spherical shell
+    obtain ⟨r, t, rfl⟩ : ∃ r t, ns = [r, t] := by
+      match ns, hn with
+      | [r, t], _ => exact ⟨r, t, rfl⟩
+    apply key [['s', '_', 's', 'h', 'e', 'l', 'l', '_', 'r'], ['_', 's']] (by decide) rfl (goodLabels_of _ (by decide)) (by decide)
+    have := parseFields_formatFields [['s', '_', 's', 'h', 'e', 'l', 'l', '_', 'r'], ['_', 's']] [r, t] (goodLabels_of _ (by decide)) rfl
+    unfold docLabels
+    rw [parseWith_cons_none _ _ _ (parseFields_none_of_prefix _ _ _ (by simp [stripPrefix, formatFields]))]
+    rw [parseWith_cons_none _ _ _ (parseFields_none_of_prefix _ _ _ (by simp [stripPrefix, formatFields]))]
+    exact parseWith_cons_some _ _ _ _ _ _ (by simp [kindOfName]) this
+  · -- ellipsoid shell
+    obtain ⟨a, b, c, t, rfl⟩ : ∃ a b c t, ns = [a, b, c, t] := by
+      match ns, hn with
+      | [a, b, c, t], _ => exact ⟨a, b, c, t, rfl⟩
+    apply key [['e', '_', 's', 'h', 'e', 'l', 'l', '_', 'r', 'x'], ['_', 'r', 'y'], ['_', 'r', 'z'], ['_', 's']] (by decide) rfl
+      (goodLabels_of _ (by decide)) (by decide)
+    have := parseFields_formatFields [['e', '_', 's', 'h', 'e', 'l', 'l', '_', 'r', 'x'], ['_', 'r', 'y'], ['_', 'r', 'z'], ['_', 's']] [a, b, c, t]
+      (goodLabels_of _ (by decide)) rfl
+    unfold docLabels
+    rw [parseWith_cons_none _ _ _ (parseFields_none_of_prefix _ _ _ (by simp [stripPrefix, formatFields]))]
+    rw [parseWith_cons_none _ _ _ (parseFields_none_of_prefix _ _ _ (by simp [stripPrefix, formatFields]))]
+    rw [parseWith_cons_none _ _ _ (parseFields_none_of_prefix _ _ _ (by simp [stripPrefix, formatFields]))]
+    rw [parseWith_cons_none _ _ _ (parseFields_none_of_prefix _ _ _ (by simp [stripPrefix, formatFields]))]
+    exact parseWith_cons_some _ _ _ _ _ _ (by simp [kindOfName]) this
+
+/-- what `generate_mask(name)` does with the parsed name: `parse_format` composed with `generate` -/
+theorem generate_from_name (k : Kind) (ns : List Nat) (hn : ns.length = arity k) (ms : Option Nat) (e : Nat) :
+    ∃ s, formatShape k ns = some s ∧ (parseShape s).bind (fun p => generate p.1 p.2 ms e) = generate k ns ms e := by
+  obtain ⟨s, h1, h2⟩ := parse_format k ns hn
+  exact ⟨s, h1, by rw [h2]; rfl⟩
+
+/-! ### centres outside the box (outside the property's quantifier; modelled because numpy does not raise) -/
+
+/-- `spherical_mask` raises (`IndexError` at the forced centre voxel) exactly when a centre index is `≥ n` or `< −n` -/
+theorem sphere_defined_iff (q : Req) (hk : q.kind = .sphere) :
+    (voxel q).isSome = true ↔ (-(q.nx : Int) ≤ q.centre.1 ∧ q.centre.1 < q.nx) ∧ (-(q.ny : Int) ≤ q.centre.2.1 ∧ q.centre.2.1 < q.ny)
+      ∧ (-(q.nz : Int) ≤ q.centre.2.2 ∧ q.centre.2.2 < q.nz) := by
+  rcases hcc : q.centre with ⟨cx, cy, cz⟩
+  simp only [voxel, hcc, hk]
+  split
+  · rename_i h
+    simp only [Bool.and_eq_true, idxOk_iff] at h
+    simp [h.1.1, h.1.2, h.2]
+  · rename_i h
+    simp only [Bool.and_eq_true, idxOk_iff] at h
+    simp only [Option.isSome_none, Bool.false_eq_true, false_iff]
+    intro hc
+    exact h ⟨⟨hc.1, hc.2.1⟩, hc.2.2⟩
+
+/-- a negative centre index wraps: the forced voxel is the one numpy addresses, `index + n` -/
+theorem sphere_negative_centre_wraps (nx ny nz : Nat) (cx cy cz : Int) (r : Rat) :
+    sphereVox nx ny nz cx cy cz r (wrapIdx nx cx) (wrapIdx ny cy) (wrapIdx nz cz) = true := by
+  simp [sphereVox]
 
 /-! ### union, intersection, subtraction, difference -/
 
@@ -451,6 +672,80 @@ theorem union_accepts_iff (ms : List (List α)) :
     have h3 : ms.isEmpty = false := by cases ms <;> simp_all
     simp [this, h3]
 
+/-! #### the two readings of "difference … XOR" -/
+
+/-- the XOR of all the masks (parity), for two masks, is the usual XOR -/
+theorem xorAll_pair (a b : Bool) : xorAll [a, b] = xor a b := by cases a <;> cases b <;> rfl
+
+/-- the checker the driver runs on every binary algebra case (`specVox`) is the statement's Boolean combination:
+OR, AND, AND-NOT and XOR of all the masks -/
+theorem specVox_documented (bs : List Bool) (b0 : Bool) :
+    specVox "union" bs = some (bs.any id) ∧ specVox "intersection" bs = some (bs.all id) ∧
+    specVox "subtraction" (b0 :: bs) = some (b0 && !bs.any id) ∧ specVox "difference" bs = some (xorAll bs) := by
+  refine ⟨?_, ?_, ?_, ?_⟩ <;> simp [specVox]
+
+theorem b2r_injective (a b : Bool) (h : (b2r a : α) = b2r b) : a = b := by
+  cases a <;> cases b <;> simp [b2r] at h ⊢
+
+/-- `difference` agrees with the XOR of all the masks exactly at the voxels where "some but not all" = "an odd number" -/
+theorem difference_eq_xor_iff (bs : List Bool) :
+    diffVox (bs.map (b2r : Bool → α)) = b2r (xorAll bs) ↔ (bs.any id && !bs.all id) = xorAll bs := by
+  rw [diffVox_bool]
+  exact ⟨b2r_injective _ _, fun h => by rw [h]⟩
+
+/-- two masks: the code meets the statement's XOR (`specVox`) -/
+theorem difference_meets_spec_two (a b s : Bool) (h : specVox "difference" [a, b] = some s) :
+    diffVox [(b2r a : α), b2r b] = b2r s := by
+  have hs : s = xor a b := by
+    have := (specVox_documented [a, b] false).2.2.2
+    rw [this, xorAll_pair] at h
+    exact (Option.some.inj h).symm
+  rw [hs]; exact difference_is_xor a b
+
+/-- **C13-K1**, one mask: the XOR of a single mask is the mask, the code returns 0 everywhere -/
+theorem difference_single_is_empty (b : Bool) : diffVox [(b2r b : α)] = 0 ∧ xorAll [b] = b := by
+  constructor
+  · have := diffVox_bool (α := α) [b]
+    simp only [List.map_cons, List.map_nil] at this
+    rw [this]; cases b <;> simp [b2r]
+  · cases b <;> rfl
+
+/-- **C13-K1**, three masks: where all three are set the XOR is 1 and the code gives 0; where exactly two are set the
+XOR is 0 and the code gives 1 -/
+theorem difference_not_xor_of_three :
+    diffVox [(b2r true : α), b2r true, b2r true] = 0 ∧ xorAll [true, true, true] = true ∧
+    diffVox [(b2r true : α), b2r true, b2r false] = 1 ∧ xorAll [true, true, false] = false := by
+  have h1 := diffVox_bool (α := α) [true, true, true]
+  have h2 := diffVox_bool (α := α) [true, true, false]
+  simp only [List.map_cons, List.map_nil] at h1 h2
+  refine ⟨by rw [h1]; simp [b2r], rfl, by rw [h2]; simp [b2r], rfl⟩
+
+/-- hence the statement's "difference = XOR" cannot hold for lists of every length 1..5: there is a list on which the
+checker's answer differs from the code (the open finding C13-K1) -/
+theorem difference_xor_reading_fails :
+    ∃ bs : List Bool, ∀ s, specVox "difference" bs = some s → diffVox (bs.map (b2r : Bool → α)) ≠ b2r s := by
+  refine ⟨[true], fun s h => ?_⟩
+  have hs : s = true := by
+    rw [(specVox_documented [true] false).2.2.2] at h
+    exact (Option.some.inj h).symm
+  rw [hs]
+  have := (difference_single_is_empty (α := α) true).1
+  simp only [List.map_cons, List.map_nil]
+  rw [this]
+  simp [b2r]
+
+/-- an empty list is refused by all four functions (the real code raises `IndexError` at `mask_list[0]`) -/
+theorem algebra_empty_rejected :
+    union ([] : List (List α)) = none ∧ intersection ([] : List (List α)) = none ∧
+    subtraction ([] : List (List α)) = none ∧ difference ([] : List (List α)) = none := by
+  refine ⟨rfl, rfl, rfl, rfl⟩
+
+/-- the model speaks about non-empty lists of equally long masks and nothing else (`inDomain`); for masks of
+different sizes numpy broadcasts or raises and nothing is claimed -/
+theorem inDomain_iff (ms : List (List α)) : inDomain ms = true ↔ (union ms).isSome = true := by
+  unfold inDomain union
+  cases h1 : ms.isEmpty <;> cases h2 : sameShape ms <;> simp
+
 end Algebra
 
 /-! ### soft edges -/
@@ -496,6 +791,212 @@ theorem outwards_sphere_contains_core_neighbourhood (cx cy cz : Int) (r g : Rat)
   rw [e1, e2, e3]
   exact this
 
+
+/-! #### the kernel model `blurAt` and the 1e-3 core bound -/
+
+/-- the constant of the statement: "leave the requested core at 1 within 1e-3" -/
+theorem coreTol_documented : coreTol = 1 / 1000 := by decide +kernel
+
+/-- kernel radius `int(4σ + 0.5)` for the widths of the quantifier's grid -/
+theorem kernel_radius_examples :
+    kernelRadius (1 / 2) = 2 ∧ kernelRadius 1 = 4 ∧ kernelRadius (3 / 2) = 6 ∧ kernelRadius 2 = 8 ∧
+    kernelRadius (5 / 2) = 10 ∧ kernelRadius 3 = 12 := by decide +kernel
+
+section Blur
+variable {α : Type} [Field α] [LinearOrder α] [IsStrictOrderedRing α]
+
+theorem w3_nonneg (w1 : Int → α) (hw : ∀ t, 0 ≤ w1 t) (q : Int × Int × Int) : 0 ≤ w3 w1 q :=
+  mul_nonneg (mul_nonneg (hw _) (hw _)) (hw _)
+
+/-- **soft masks stay within [0,1]**, for the kernel model: separable non-negative weights of total 1 over the offsets
+`[-R,R]³`, nearest-voxel boundary, applied to any [0,1]-valued mask -/
+theorem blur_range (nx ny nz R : Nat) (w1 : Int → α) (x : Int → Int → Int → α) (hw : ∀ t, 0 ≤ w1 t)
+    (hsum : ((cube R).map (w3 w1)).sum = 1) (hx : ∀ a b c, 0 ≤ x a b c ∧ x a b c ≤ 1) (i j k : Int) :
+    0 ≤ blurAt nx ny nz R w1 x i j k ∧ blurAt nx ny nz R w1 x i j k ≤ 1 := by
+  unfold blurAt
+  refine ⟨list_conv_nonneg _ _ _ (fun q _ => w3_nonneg w1 hw q) (fun q _ => (hx _ _ _).1), ?_⟩
+  rw [← hsum]
+  exact list_conv_le _ _ _ (fun q _ => w3_nonneg w1 hw q) (fun q _ => (hx _ _ _).2)
+
+/-- `soft_core_deficit` for the kernel model: the blurred value falls short of 1 by at most the weight of the
+offsets flagged `bad`, provided every other offset reads a voxel holding 1 -/
+theorem blur_core_deficit (nx ny nz R : Nat) (w1 : Int → α) (x : Int → Int → Int → α) (hw : ∀ t, 0 ≤ w1 t)
+    (hsum : ((cube R).map (w3 w1)).sum = 1) (hx : ∀ a b c, 0 ≤ x a b c ∧ x a b c ≤ 1) (bad : Int × Int × Int → Bool) (i j k : Int)
+    (hgood : ∀ o ∈ cube R, bad o = false → seen nx ny nz x i j k o = 1) :
+    1 - blurAt nx ny nz R w1 x i j k ≤ (((cube R).filter bad).map (w3 w1)).sum := by
+  unfold blurAt
+  rw [← hsum]
+  exact list_deficit (cube R) (w3 w1) (seen nx ny nz x i j k) bad (fun q _ => w3_nonneg w1 hw q) (fun q _ => hx _ _ _) hgood
+
+/-- the 1-D weights `gaussian_filter1d` uses, `e t / Σ e` for any positive `e` (here `exp(-t²/2σ²)`), are non-negative with
+total 1 … -/
+theorem normalised_weights (R : Nat) (e : Int → α) (he : ∀ t, 0 ≤ e t) (hpos : 0 < ((axis R).map e).sum) :
+    (∀ t, 0 ≤ e t / ((axis R).map e).sum) ∧ ((axis R).map fun t => e t / ((axis R).map e).sum).sum = 1 := by
+  refine ⟨fun t => div_nonneg (he t) (le_of_lt hpos), ?_⟩
+  simp only [div_eq_mul_inv, List.sum_map_mul_right]
+  exact mul_inv_cancel₀ (ne_of_gt hpos)
+
+/-- … and a separable kernel built from 1-D weights of total 1 has total weight 1 over `[-R,R]³`: the hypothesis `hsum` of
+`blur_range`, `blur_core_deficit` and the two `…_core_within_tol` theorems -/
+theorem kernel_total_weight (R : Nat) (w1 : Int → α) (h : ((axis R).map w1).sum = 1) : ((cube R).map (w3 w1)).sum = 1 :=
+  cube_weight_sum_one R w1 h
+
+end Blur
+
+/-- offsets farther than `5σ` from the centre of the kernel -/
+def farOffset (g : Rat) (o : Int × Int × Int) : Bool :=
+  decide ((g * 5) * (g * 5) < ((o.1 * o.1 + o.2.1 * o.2.1 + o.2.2 * o.2.2 : Int) : Rat))
+
+section Core
+variable {α : Type} [Field α] [LinearOrder α] [IsStrictOrderedRing α]
+
+theorem b2i_cast_mem (b : Bool) : (0 : α) ≤ ((b2i b : Int) : α) ∧ ((b2i b : Int) : α) ≤ 1 := by
+  cases b <;> simp [b2i]
+
+/-- **blurred outwards, sphere: the requested core stays at 1 within the kernel's tail beyond 5σ** — `soft_core_deficit`
+instantiated with the model's own pre-blur mask (`voxel q`, radius `⌈r + 5σ⌉`) and the kernel model `blurAt`
+(mode nearest).  With the probed fact "weight beyond 5σ ≤ 1e-3" (`tol = coreTol`) this is the statement's clause. -/
+theorem soft_sphere_core_within_tol (q : Req) (hk : q.kind = .sphere) (hc : CentreInBox q) (r : Rat) (hr : q.radius = some r)
+    (hr0 : 0 ≤ r) (hg : 0 < q.gauss) (ho : q.outwards = true)
+    (R : Nat) (w1 : Int → α) (hw : ∀ t, 0 ≤ w1 t) (hsum : ((cube R).map (w3 w1)).sum = 1)
+    (tol : α) (htail : (((cube R).filter (farOffset q.gauss)).map (w3 w1)).sum ≤ tol) :
+    ∃ f, voxel q = some f ∧ ∀ i j k : Nat, i < q.nx → j < q.ny → k < q.nz →
+      (dist2 q.centre i j k : Rat) ≤ r ^ 2 →
+      1 - blurAt q.nx q.ny q.nz R w1 (fun a b c => ((f a b c : Int) : α)) i j k ≤ tol := by
+  obtain ⟨h1, h2, h3, h4, h5, h6⟩ := hc
+  rcases hcc : q.centre with ⟨cx, cy, cz⟩
+  rw [hcc] at h1 h2 h3 h4 h5 h6
+  have hR : q.sphereRadius = preprocess r q.gauss true := by
+    unfold Req.sphereRadius; rw [hr, ho]; rfl
+  refine ⟨fun i j k => b2i (sphereVox q.nx q.ny q.nz cx cy cz q.sphereRadius i j k), ?_, ?_⟩
+  · simp only [voxel, hcc, hk, idxOk_of_inBox _ _ h1 h2, idxOk_of_inBox _ _ h3 h4, idxOk_of_inBox _ _ h5 h6, Bool.and_self, if_true]
+  · intro i j k hi hj hk' hcore
+    refine le_trans (blur_core_deficit q.nx q.ny q.nz R w1 _ hw hsum (fun a b c => b2i_cast_mem _) (farOffset q.gauss) i j k ?_) htail
+    intro o _ hfar
+    obtain ⟨t1, e1, s1, _, _⟩ := clampIdx_between q.nx i o.1 (by omega) (by exact_mod_cast hi)
+    obtain ⟨t2, e2, s2, _, _⟩ := clampIdx_between q.ny j o.2.1 (by omega) (by exact_mod_cast hj)
+    obtain ⟨t3, e3, s3, _, _⟩ := clampIdx_between q.nz k o.2.2 (by omega) (by exact_mod_cast hk')
+    have hoff : ((t1 * t1 + t2 * t2 + t3 * t3 : Int) : Rat) ≤ (q.gauss * 5) * (q.gauss * 5) := by
+      have hle : ((o.1 * o.1 + o.2.1 * o.2.1 + o.2.2 * o.2.2 : Int) : Rat) ≤ (q.gauss * 5) * (q.gauss * 5) := by
+        simpa [farOffset, not_lt] using hfar
+      have : ((t1 * t1 + t2 * t2 + t3 * t3 : Int) : Rat) ≤ ((o.1 * o.1 + o.2.1 * o.2.1 + o.2.2 * o.2.2 : Int) : Rat) := by
+        exact_mod_cast (by omega : t1 * t1 + t2 * t2 + t3 * t3 ≤ o.1 * o.1 + o.2.1 * o.2.1 + o.2.2 * o.2.2)
+      exact le_trans this hle
+    have hin : sphereIn cx cy cz r i j k = true := by
+      rw [sphereIn_iff _ _ _ _ hr0, sq_sum_eq_dist2, ← pow_two]
+      simpa [hcc] using hcore
+    have := outwards_sphere_contains_core_neighbourhood cx cy cz r q.gauss hr0 hg i j k t1 t2 t3 hin hoff
+    simp only [seen, e1, e2, e3, hR, sphereVox_inBox _ _ _ _ _ _ _ h1 h3 h5, this]
+    simp [b2i]
+
+end Core
+
+/-- **cylinder, blurred outwards**: the cylinder drawn (radius `⌈r + 5σ⌉`, half height `⌈h + 5σ⌉`, slab clipped to the box)
+contains every voxel of the box within `5σ` of a voxel of the requested core -/
+theorem outwards_cylinder_contains_core_neighbourhood (nz : Nat) (cx cy cz : Int) (r g : Rat) (h : Int) (hr : 0 ≤ r) (hg : 0 < g)
+    (i j k u v t : Int) (hcore : cylIn nz cx cy cz r h i j k = true)
+    (hoff : ((u * u + v * v + t * t : Int) : Rat) ≤ (g * 5) * (g * 5)) (hkb : 0 ≤ k + t ∧ k + t < (nz : Int)) :
+    cylIn nz cx cy cz (preprocess r g true) (trunc (preprocess (h : Rat) g true)) (i + u) (j + v) (k + t) = true := by
+  have h5 : 0 ≤ g * 5 := by positivity
+  have hR : r + g * 5 ≤ preprocess r g true := by
+    rw [preprocess_outwards _ _ (ne_of_gt hg), blur_factor_documented]; exact Rat.le_ceil
+  have hR0 : 0 ≤ preprocess r g true := by linarith
+  have hH : trunc (preprocess (h : Rat) g true) = ((h : Rat) + g * 5).ceil := by
+    rw [preprocess_outwards _ _ (ne_of_gt hg), blur_factor_documented, trunc_intCast]
+  simp only [cylIn, Bool.and_eq_true, decide_eq_true_iff] at hcore ⊢
+  obtain ⟨⟨hd, hlo⟩, hhi⟩ := hcore
+  have huv : ((u * u + v * v : Int) : Rat) ≤ (g * 5) * (g * 5) := by
+    have : ((u * u + v * v : Int) : Rat) ≤ ((u * u + v * v + t * t : Int) : Rat) := by
+      exact_mod_cast (by nlinarith [mul_self_nonneg t] : u * u + v * v ≤ u * u + v * v + t * t)
+    exact le_trans this hoff
+  have htt : ((t * t : Int) : Rat) ≤ (g * 5) * (g * 5) := by
+    have : ((t * t : Int) : Rat) ≤ ((u * u + v * v + t * t : Int) : Rat) := by
+      exact_mod_cast (by nlinarith [mul_self_nonneg u, mul_self_nonneg v] : t * t ≤ u * u + v * v + t * t)
+    exact le_trans this hoff
+  have ht1 : (t : Rat) ≤ g * 5 := by
+    by_contra hc; rw [not_le] at hc
+    have : (g * 5) * (g * 5) < (t : Rat) * t := by nlinarith
+    push_cast at htt; linarith
+  have ht2 : -(t : Rat) ≤ g * 5 := by
+    by_contra hc; rw [not_le] at hc
+    have : (g * 5) * (g * 5) < (t : Rat) * t := by nlinarith
+    push_cast at htt; linarith
+  have hc1 : h + t ≤ ((h : Rat) + g * 5).ceil := by
+    have : ((h + t : Int) : Rat) ≤ (((h : Rat) + g * 5).ceil : Rat) := by
+      push_cast; exact le_trans (by linarith) Rat.le_ceil
+    exact_mod_cast this
+  have hc2 : h - t ≤ ((h : Rat) + g * 5).ceil := by
+    have : ((h - t : Int) : Rat) ≤ (((h : Rat) + g * 5).ceil : Rat) := by
+      push_cast; exact le_trans (by linarith) Rat.le_ceil
+    exact_mod_cast this
+  refine ⟨⟨?_, ?_⟩, ?_⟩
+  · rw [discIn_iff _ _ _ hr] at hd
+    have := ball_dilate ((i - cx : Int) : Rat) ((j - cy : Int) : Rat) 0 (u : Rat) (v : Rat) 0 r (g * 5) hr h5
+      (by simpa [sq] using hd) (by simpa using huv)
+    have hbig : discIn cx cy (r + g * 5) (i + u) (j + v) = true := by
+      rw [discIn_iff _ _ _ (by linarith)]
+      simp only [sq]
+      push_cast at this ⊢
+      have e1 : (i : Rat) + u - cx = i - cx + u := by ring
+      have e2 : (j : Rat) + v - cy = j - cy + v := by ring
+      rw [e1, e2]
+      simpa using this
+    -- the disc only grows with its radius
+    unfold discIn at hbig ⊢
+    rw [Bool.or_eq_true, Bool.not_eq_true', sqrtGt_eq_false] at hbig ⊢
+    rcases hbig with hb | ⟨hb0, hb1⟩
+    · exact Or.inl hb
+    · exact Or.inr ⟨hR0, le_trans hb1 (mul_self_le_mul_self hb0 hR)⟩
+  · rw [hH]; omega
+  · rw [hH]; omega
+
+/-- **blurred outwards, cylinder: the requested core stays at 1 within the kernel's tail beyond 5σ** (the analogue of
+`soft_sphere_core_within_tol`; the core is the hard cylinder of radius `r` and half height `⌊h/2⌋`, clipped to the box) -/
+theorem soft_cylinder_core_within_tol {α : Type} [Field α] [LinearOrder α] [IsStrictOrderedRing α]
+    (q : Req) (hk : q.kind = .cylinder)
+    (hc : 0 ≤ q.centre.1 ∧ q.centre.1 < q.nx ∧ 0 ≤ q.centre.2.1 ∧ q.centre.2.1 < q.ny)
+    (r : Rat) (hr : q.radius = some r) (h : Int) (hh : q.height = some h)
+    (hr0 : 0 ≤ r) (hg : 0 < q.gauss) (ho : q.outwards = true)
+    (R : Nat) (w1 : Int → α) (hw : ∀ t, 0 ≤ w1 t) (hsum : ((cube R).map (w3 w1)).sum = 1)
+    (tol : α) (htail : (((cube R).filter (farOffset q.gauss)).map (w3 w1)).sum ≤ tol) :
+    ∃ f, voxel q = some f ∧ ∀ i j k : Nat, i < q.nx → j < q.ny → k < q.nz →
+      cylIn q.nz q.centre.1 q.centre.2.1 q.centre.2.2 r (h / 2) i j k = true →
+      1 - blurAt q.nx q.ny q.nz R w1 (fun a b c => ((f a b c : Int) : α)) i j k ≤ tol := by
+  obtain ⟨h1, h2, h3, h4⟩ := hc
+  rcases hcc : q.centre with ⟨cx, cy, cz⟩
+  rw [hcc] at h1 h2 h3 h4
+  have hR : q.cylRadius = preprocess r q.gauss true := by
+    unfold Req.cylRadius; rw [hr, ho]; rfl
+  have hH : q.cylHalf = trunc (preprocess (((h / 2 : Int)) : Rat) q.gauss true) := by
+    unfold Req.cylHalf; rw [hh, ho]; rfl
+  refine ⟨fun i j k => b2i (cylVox q.nx q.ny q.nz cx cy cz q.cylRadius q.cylHalf i j k), ?_, ?_⟩
+  · simp only [voxel, hcc, hk, idxOk_of_inBox _ _ h1 h2, idxOk_of_inBox _ _ h3 h4, Bool.and_self, if_true]
+  · intro i j k hi hj hk' hcore
+    refine le_trans (blur_core_deficit q.nx q.ny q.nz R w1 _ hw hsum (fun a b c => b2i_cast_mem _) (farOffset q.gauss) i j k ?_) htail
+    intro o _ hfar
+    obtain ⟨t1, e1, s1, _, _⟩ := clampIdx_between q.nx i o.1 (by omega) (by exact_mod_cast hi)
+    obtain ⟨t2, e2, s2, _, _⟩ := clampIdx_between q.ny j o.2.1 (by omega) (by exact_mod_cast hj)
+    obtain ⟨t3, e3, s3, b3, b4⟩ := clampIdx_between q.nz k o.2.2 (by omega) (by exact_mod_cast hk')
+    have hoff : ((t1 * t1 + t2 * t2 + t3 * t3 : Int) : Rat) ≤ (q.gauss * 5) * (q.gauss * 5) := by
+      have hle : ((o.1 * o.1 + o.2.1 * o.2.1 + o.2.2 * o.2.2 : Int) : Rat) ≤ (q.gauss * 5) * (q.gauss * 5) := by
+        simpa [farOffset, not_lt] using hfar
+      have : ((t1 * t1 + t2 * t2 + t3 * t3 : Int) : Rat) ≤ ((o.1 * o.1 + o.2.1 * o.2.1 + o.2.2 * o.2.2 : Int) : Rat) := by
+        exact_mod_cast (by omega : t1 * t1 + t2 * t2 + t3 * t3 ≤ o.1 * o.1 + o.2.1 * o.2.1 + o.2.2 * o.2.2)
+      exact le_trans this hle
+    have := outwards_cylinder_contains_core_neighbourhood q.nz cx cy cz r q.gauss (h / 2) hr0 hg i j k t1 t2 t3 hcore hoff ⟨b3, b4⟩
+    simp only [seen, e1, e2, e3, hR, hH, cylVox_inBox _ _ _ _ _ _ _ _ h1 h3, this]
+    simp [b2i]
+
+/-- **ellipsoid, blurred outwards: the same inclusion is FALSE** (open finding C13-K2).  Radii `(20,1,1)`, `σ = 1`: the code
+draws radii `(25,6,6)`; voxel `(44,8,8)` of a `48×16×16` box (centre `(24,8,8)`) belongs to the requested core, voxel `(44,11,10)`
+lies within `5σ` of it (offset `(0,3,2)`, length `√13`), and is outside the enlarged ellipsoid: `(20/25)² + (3/6)² + (2/6)² > 1`.
+Enlarging every radius by `5σ` does not cover the `5σ`-neighbourhood of an elongated core. -/
+theorem ellipsoid_outwards_not_dilation :
+    ellipsoidIn 48 16 16 24 8 8 20 1 1 44 8 8 = true ∧
+    (((0 * 0 + 3 * 3 + 2 * 2 : Int)) : Rat) ≤ ((1 : Rat) * 5) * ((1 : Rat) * 5) ∧
+    ellRadii ((20 : Rat), (1 : Rat), (1 : Rat)) 1 true = (25, 6, 6) ∧
+    ellipsoidIn 48 16 16 24 8 8 25 6 6 (44 + 0) (8 + 3) (8 + 2) = false := by decide +kernel
+
 /-! ### non-vacuity: concrete inputs meeting the hypotheses -/
 
 -- an off-centre sphere clipped by the box
@@ -515,5 +1016,20 @@ example : genSize [5] none 4 = 14 ∧ (generate .sshell [5, 3] none 4).map (·.n
 -- three binary masks over ℚ
 example : diffVox [(b2r true : ℚ), b2r false, b2r true] = 1 ∧ unionVox [(b2r false : ℚ), b2r false] = 0 := by
   constructor <;> simp [diffVox, unionVox, interVox, clip01, b2r]
+
+-- the name of a shape: format, then parse
+example : (formatShape .cylinder [4, 7]).map String.ofList = some "cylinder_r4_h7" ∧
+    parseShape "e_shell_rx4_ry05_rz6_s2".toList = some (.eshell, [4, 5, 6, 2]) ∧ parseShape "sphere_r".toList = none := by decide +kernel
+-- a negative centre index wraps (numpy), an index beyond the box raises
+example : (voxel { kind := .sphere, nx := 6, ny := 7, nz := 8, center := some (-1, 3, 4), radius := some 2 }).isSome = true ∧
+    (voxel { kind := .sphere, nx := 6, ny := 7, nz := 8, center := some (6, 3, 4), radius := some 2 }).isSome = false := by decide +kernel
+-- a kernel meeting the hypotheses of `blur_range` / `soft_sphere_core_within_tol` (radius 1, weights 1/4, 1/2, 1/4; no offset beyond 5σ)
+example : ((cube 1).map (w3 fun t => if t = 0 then (1 / 2 : ℚ) else 1 / 4)).sum = 1 ∧
+    (((cube 1).filter (farOffset 1)).map (w3 fun t => if t = 0 then (1 / 2 : ℚ) else 1 / 4)).sum ≤ coreTol := by decide +kernel
+-- one mask and three masks: union minus intersection is not XOR (C13-K1)
+example : diffVox [(b2r true : ℚ)] = 0 ∧ xorAll [true] = true := by
+  constructor
+  · simp [diffVox, unionVox, interVox, clip01, b2r]
+  · rfl
 
 end CryoCat.C13
